@@ -40,14 +40,18 @@ VARIABLES
   client,     \* [Ids -> value]  what a client that folds every update of the id holds
   gotFirst,   \* [Ids -> BOOLEAN] client has received an update since its (latest) subscribe
   closeQ,     \* bag of pending asynchronous closes: [<<id, inst>> -> count]
-  logq,       \* Seq(<<"sub"|"unsub", id>>)  calls of the SubscriptionLogger
+  logq,       \* Seq(<<"sub"|"unsub", id, kind>>)  calls of the SubscriptionLogger; kind (ghost) = what the
+              \* closed instance was: a mutation's close also calls Unsubscribe although it never subscribed
   closed,     \* socket closed and closeSubscriptions done
   ended,      \* [Inst -> Nat]  how often the instance was ended (ghost)
   unsubbed,   \* [Ids -> BOOLEAN]  an unsubscribe for the id was processed and no subscribe accepted since (ghost)
   lateWrite,  \* an update was written for an id in state unsubbed (ghost)
+  believes,   \* [Ids -> BOOLEAN]  the client has every reason to believe it is subscribed under this id: its
+              \* subscribe was accepted and it has neither unsubscribed nor been sent an error for the id (ghost)
+  cause,      \* [Inst -> why the instance ended: "unsub" | "self" | "close" | "stale" | "none"] (ghost)
   nextInst, msgs
 vars == <<subs, ist, iid, ikind, iq, iinit, iprev, iread, ipend, data, client, gotFirst, closeQ, logq, closed,
-          ended, unsubbed, lateWrite, nextInst, msgs>>
+          ended, unsubbed, lateWrite, believes, cause, nextInst, msgs>>
 
 BAdd(b, x) == IF x \in DOMAIN b THEN [b EXCEPT ![x] = @ + 1] ELSE b @@ (x :> 1)
 BRem(b, x) == IF b[x] = 1 THEN [y \in DOMAIN b \ {x} |-> b[y]] ELSE [b EXCEPT ![x] = @ - 1]
@@ -61,6 +65,7 @@ Init ==
   /\ client = [i \in Ids |-> Nothing] /\ gotFirst = [i \in Ids |-> FALSE]
   /\ closeQ = <<>> /\ logq = <<>> /\ closed = FALSE
   /\ ended = [i \in Inst |-> 0] /\ unsubbed = [i \in Ids |-> FALSE] /\ lateWrite = FALSE
+  /\ believes = [i \in Ids |-> FALSE] /\ cause = [i \in Inst |-> "none"]
   /\ nextInst = 1 /\ msgs = 0
 
 Live(i) == ist[i] \in {"sched", "run", "idle"}
@@ -68,8 +73,9 @@ NumSubs == Cardinality({id \in Ids : subs[id] # 0})
 
 \* rerunner.Stop() under c.mu: waits for a running computation, then the instance is over
 CanStop(i) == ist[i] # "run"
-StopInst(i) == /\ ist' = [ist EXCEPT ![i] = "ended"]
-               /\ ended' = [ended EXCEPT ![i] = IF Live(i) THEN @ + 1 ELSE @]
+StopInst(i, why) == /\ ist' = [ist EXCEPT ![i] = "ended"]
+                    /\ ended' = [ended EXCEPT ![i] = IF Live(i) THEN @ + 1 ELSE @]
+                    /\ cause' = [cause EXCEPT ![i] = IF Live(i) THEN why ELSE @]
 
 -----------------------------------------------------------------------------
 \* the reader goroutine: one inbound message at a time
@@ -83,27 +89,29 @@ RecvSubscribe(id, q) ==
      /\ ist' = [ist EXCEPT ![i] = "sched"] /\ iid' = [iid EXCEPT ![i] = id] /\ ikind' = [ikind EXCEPT ![i] = "sub"]
      /\ iq' = [iq EXCEPT ![i] = q]
      /\ nextInst' = i + 1
-  /\ logq' = Append(logq, <<"sub", id>>)
+  /\ logq' = Append(logq, <<"sub", id, "sub">>)
   /\ client' = [client EXCEPT ![id] = Nothing] /\ gotFirst' = [gotFirst EXCEPT ![id] = FALSE]
   /\ unsubbed' = [unsubbed EXCEPT ![id] = FALSE]
+  /\ believes' = [believes EXCEPT ![id] = TRUE]
   /\ msgs' = msgs + 1
-  /\ UNCHANGED <<iinit, iprev, iread, ipend, data, closeQ, closed, ended, lateWrite>>
+  /\ UNCHANGED <<iinit, iprev, iread, ipend, data, closeQ, closed, ended, lateWrite, cause>>
 
 \* subscribe rejected (duplicate id, too many subscriptions, bad query): one error envelope, nothing else changes
 RecvSubscribeRejected(id, q) ==
   /\ ~closed /\ (subs[id] # 0 \/ NumSubs + 1 > MaxSubs \/ q \in BadQueries)
   /\ msgs' = msgs + 1
   /\ UNCHANGED <<subs, ist, iid, ikind, iq, iinit, iprev, iread, ipend, data, client, gotFirst, closeQ, logq, closed,
-                 ended, unsubbed, lateWrite, nextInst>>
+                 ended, unsubbed, lateWrite, believes, cause, nextInst>>
 
 \* unsubscribe: closeSubscription(id) on the reader goroutine
 RecvUnsubscribe(id) ==
   /\ ~closed
-  /\ IF subs[id] = 0 THEN UNCHANGED <<subs, ist, ended, logq>>
-     ELSE /\ CanStop(subs[id]) /\ StopInst(subs[id])
+  /\ IF subs[id] = 0 THEN UNCHANGED <<subs, ist, ended, logq, cause>>
+     ELSE /\ CanStop(subs[id]) /\ StopInst(subs[id], "unsub")
           /\ subs' = [subs EXCEPT ![id] = 0]
-          /\ logq' = Append(logq, <<"unsub", id>>)
+          /\ logq' = Append(logq, <<"unsub", id, ikind[subs[id]]>>)
   /\ unsubbed' = [unsubbed EXCEPT ![id] = TRUE]
+  /\ believes' = [believes EXCEPT ![id] = FALSE]
   /\ msgs' = msgs + 1
   /\ UNCHANGED <<iid, ikind, iq, iinit, iprev, iread, ipend, data, client, gotFirst, closeQ, closed, lateWrite, nextInst>>
 
@@ -117,13 +125,13 @@ RecvMutate(id, q) ==
      /\ iq' = [iq EXCEPT ![i] = q]
      /\ nextInst' = i + 1
   /\ msgs' = msgs + 1
-  /\ UNCHANGED <<iinit, iprev, iread, ipend, data, client, gotFirst, closeQ, logq, closed, ended, unsubbed, lateWrite>>
+  /\ UNCHANGED <<iinit, iprev, iread, ipend, data, client, gotFirst, closeQ, logq, closed, ended, unsubbed, lateWrite, believes, cause>>
 
 RecvMutateRejected(id, q) ==
   /\ ~closed /\ q \in MutQueries /\ (subs[id] # 0 \/ q \in BadQueries)
   /\ msgs' = msgs + 1
   /\ UNCHANGED <<subs, ist, iid, ikind, iq, iinit, iprev, iread, ipend, data, client, gotFirst, closeQ, logq, closed,
-                 ended, unsubbed, lateWrite, nextInst>>
+                 ended, unsubbed, lateWrite, believes, cause, nextInst>>
 
 \* the socket fails / the client goes away: closeSubscriptions stops and un-logs everything registered
 SocketClose ==
@@ -132,9 +140,11 @@ SocketClose ==
   /\ LET live == {subs[id] : id \in {x \in Ids : subs[x] # 0}} IN
      /\ ist' = [i \in Inst |-> IF i \in live THEN "ended" ELSE ist[i]]
      /\ ended' = [i \in Inst |-> IF i \in live /\ Live(i) THEN ended[i] + 1 ELSE ended[i]]
-     /\ logq' = logq \o SetToSeq({<<"unsub", id>> : id \in {x \in Ids : subs[x] # 0}})
+     /\ cause' = [i \in Inst |-> IF i \in live /\ Live(i) THEN "close" ELSE cause[i]]
+     /\ logq' = logq \o SetToSeq({<<"unsub", id, ikind[subs[id]]>> : id \in {x \in Ids : subs[x] # 0}})
   /\ subs' = [id \in Ids |-> 0]
   /\ closed' = TRUE
+  /\ believes' = [id \in Ids |-> FALSE]
   /\ UNCHANGED <<iid, ikind, iq, iinit, iprev, iread, ipend, data, client, gotFirst, closeQ, unsubbed, lateWrite, nextInst, msgs>>
 
 -----------------------------------------------------------------------------
@@ -144,13 +154,13 @@ RunStart(i) ==
   /\ ist[i] = "sched"
   /\ ist' = [ist EXCEPT ![i] = "run"]
   /\ iread' = [iread EXCEPT ![i] = -1] /\ ipend' = [ipend EXCEPT ![i] = FALSE]
-  /\ UNCHANGED <<subs, iid, ikind, iq, iinit, iprev, data, client, gotFirst, closeQ, logq, closed, ended, unsubbed, lateWrite, nextInst, msgs>>
+  /\ UNCHANGED <<subs, iid, ikind, iq, iinit, iprev, data, client, gotFirst, closeQ, logq, closed, ended, unsubbed, lateWrite, believes, cause, nextInst, msgs>>
 
 \* the resolvers register their dependencies and read the data
 RunRead(i) ==
   /\ ist[i] = "run" /\ iread[i] = -1
   /\ iread' = [iread EXCEPT ![i] = data]
-  /\ UNCHANGED <<subs, ist, iid, ikind, iq, iinit, iprev, ipend, data, client, gotFirst, closeQ, logq, closed, ended, unsubbed, lateWrite, nextInst, msgs>>
+  /\ UNCHANGED <<subs, ist, iid, ikind, iq, iinit, iprev, ipend, data, client, gotFirst, closeQ, logq, closed, ended, unsubbed, lateWrite, believes, cause, nextInst, msgs>>
 
 \* what the client of id holds after delta d
 Apply(id, d) == IF d = NoDiff THEN client[id] ELSE Norm(ClientMerge(client[id], d))
@@ -169,7 +179,7 @@ SubRunOK(i) ==
      /\ iprev' = [iprev EXCEPT ![i] = cur]
      /\ iinit' = [iinit EXCEPT ![i] = FALSE]
      /\ ist' = [ist EXCEPT ![i] = IF ipend[i] THEN "sched" ELSE "idle"]
-  /\ UNCHANGED <<subs, iid, ikind, iq, iread, ipend, data, closeQ, logq, closed, ended, unsubbed, nextInst, msgs>>
+  /\ UNCHANGED <<subs, iid, ikind, iq, iread, ipend, data, closeQ, logq, closed, ended, unsubbed, believes, cause, nextInst, msgs>>
 
 \* a subscription run fails: the first run reports the error once and closes itself asynchronously;
 \* a later run is retried silently (the client keeps its last value)
@@ -179,9 +189,11 @@ SubRunFail(i) ==
   /\ IF iinit[i]
      THEN /\ ist' = [ist EXCEPT ![i] = "ended"]
           /\ ended' = [ended EXCEPT ![i] = @ + 1]
+          /\ cause' = [cause EXCEPT ![i] = "self"]
           /\ closeQ' = BAdd(closeQ, <<iid[i], i>>)
+          /\ believes' = [believes EXCEPT ![iid[i]] = IF subs[iid[i]] = i THEN FALSE ELSE @]     \* the error envelope
      ELSE /\ ist' = [ist EXCEPT ![i] = "sched"]           \* RetrySentinelError: run again later
-          /\ UNCHANGED <<ended, closeQ>>
+          /\ UNCHANGED <<ended, closeQ, believes, cause>>
   /\ UNCHANGED <<subs, iid, ikind, iq, iinit, iprev, iread, ipend, data, client, gotFirst, logq, closed, unsubbed, lateWrite, nextInst, msgs>>
 
 \* a mutation runs once: the data changes, the result (or error) is written, it closes itself asynchronously
@@ -189,12 +201,13 @@ MutRun(i) ==
   /\ ist[i] = "run" /\ ikind[i] = "mut"
   /\ ist' = [ist EXCEPT ![i] = "ended"]
   /\ ended' = [ended EXCEPT ![i] = @ + 1]
+  /\ cause' = [cause EXCEPT ![i] = "self"]
   /\ closeQ' = BAdd(closeQ, <<iid[i], i>>)
   /\ IF data < MaxVer
      THEN /\ data' = data + 1
           /\ ipend' = [j \in Inst |-> IF ist[j] = "run" /\ iread[j] >= 0 /\ j # i THEN TRUE ELSE ipend[j]]
      ELSE UNCHANGED <<data, ipend>>
-  /\ UNCHANGED <<subs, iid, ikind, iq, iinit, iprev, iread, client, gotFirst, logq, closed, unsubbed, lateWrite, nextInst, msgs>>
+  /\ UNCHANGED <<subs, iid, ikind, iq, iinit, iprev, iread, client, gotFirst, logq, closed, unsubbed, lateWrite, believes, nextInst, msgs>>
 \* ... and every idle subscription is invalidated by the data change (separate step: Invalidate)
 
 \* the asynchronous `go c.closeSubscription(id)` of instance i
@@ -204,11 +217,11 @@ AsyncClose(id, i) ==
   /\ LET cur == subs[id]
          hit == cur # 0 /\ (~CloseSelfOnly \/ cur = i) IN
      IF hit
-     THEN /\ CanStop(cur) /\ StopInst(cur)
+     THEN /\ CanStop(cur) /\ StopInst(cur, IF cur = i THEN "self" ELSE "stale")
           /\ subs' = [subs EXCEPT ![id] = 0]
-          /\ logq' = Append(logq, <<"unsub", id>>)
-     ELSE UNCHANGED <<subs, ist, ended, logq>>
-  /\ UNCHANGED <<iid, ikind, iq, iinit, iprev, iread, ipend, data, client, gotFirst, closed, unsubbed, lateWrite, nextInst, msgs>>
+          /\ logq' = Append(logq, <<"unsub", id, ikind[cur]>>)
+     ELSE UNCHANGED <<subs, ist, ended, logq, cause>>
+  /\ UNCHANGED <<iid, ikind, iq, iinit, iprev, iread, ipend, data, client, gotFirst, closed, unsubbed, lateWrite, believes, nextInst, msgs>>
 
 -----------------------------------------------------------------------------
 \* environment
@@ -219,13 +232,13 @@ DataChange ==
   /\ data < MaxVer
   /\ data' = data + 1
   /\ ipend' = [j \in Inst |-> IF ist[j] = "run" /\ iread[j] >= 0 THEN TRUE ELSE ipend[j]]
-  /\ UNCHANGED <<subs, ist, iid, ikind, iq, iinit, iprev, iread, client, gotFirst, closeQ, logq, closed, ended, unsubbed, lateWrite, nextInst, msgs>>
+  /\ UNCHANGED <<subs, ist, iid, ikind, iq, iinit, iprev, iread, client, gotFirst, closeQ, logq, closed, ended, unsubbed, lateWrite, believes, cause, nextInst, msgs>>
 
 \* an idle instance whose last read is stale gets scheduled
 Invalidate(i) ==
   /\ ist[i] = "idle" /\ iread[i] # data
   /\ ist' = [ist EXCEPT ![i] = "sched"]
-  /\ UNCHANGED <<subs, iid, ikind, iq, iinit, iprev, iread, ipend, data, client, gotFirst, closeQ, logq, closed, ended, unsubbed, lateWrite, nextInst, msgs>>
+  /\ UNCHANGED <<subs, iid, ikind, iq, iinit, iprev, iread, ipend, data, client, gotFirst, closeQ, logq, closed, ended, unsubbed, lateWrite, believes, cause, nextInst, msgs>>
 
 Next ==
   \/ \E id \in Ids, q \in Queries : RecvSubscribe(id, q) \/ RecvSubscribeRejected(id, q) \/ RecvMutate(id, q) \/ RecvMutateRejected(id, q)
@@ -245,8 +258,9 @@ Retrying(i) == Res[iq[i]][data] = Fail
 
 \* C02: once the data has stopped changing every live subscription's client holds the current result
 Converges ==
-  Quiescent => \A id \in Ids : subs[id] # 0 /\ ikind[subs[id]] = "sub" /\ ist[subs[id]] = "idle" =>
-                 client[id] = Strip(Res[iq[subs[id]]][data])
+  Quiescent => \A id \in Ids : believes[id] =>
+                 /\ subs[id] # 0 /\ ikind[subs[id]] = "sub"                 \* the subscription has not been ended behind its back
+                 /\ ist[subs[id]] = "idle" /\ client[id] = Strip(Res[iq[subs[id]]][data])
 \* C02: the first update of an accepted subscription is a full one: folding it into nothing gives the whole result
 FirstIsFull ==
   \A i \in Inst : ist[i] \in {"idle", "sched", "run"} /\ ikind[i] = "sub" /\ ~iinit[i] /\ subs[iid[i]] = i =>
@@ -257,6 +271,8 @@ NoUpdateAfterUnsub == ~lateWrite
 \* C17: every accepted instance ends at most once; by the time everything has settled after the socket
 \* closed, every instance has ended exactly once and nothing is left running
 EndsAtMostOnce == \A i \in Inst : ended[i] <= 1
+\* ... and only by its unsubscribe, by its own failure/completion, or by the connection closing
+EndsForAReason == \A i \in Inst : cause[i] # "stale"
 AllEndAfterClose == closed /\ Quiescent => \A i \in Inst : ist[i] # "unused" => ended[i] = 1 /\ ist[i] = "ended"
 \* C17: the map always knows every live rerunner (otherwise closeSubscriptions cannot stop it)
 MapComplete == \A i \in Inst : Live(i) => subs[iid[i]] = i
@@ -264,11 +280,12 @@ MapComplete == \A i \in Inst : Live(i) => subs[iid[i]] = i
 RECURSIVE Balance(_, _)
 Balance(s, id) == IF s = <<>> THEN 0
                   ELSE Balance(SubSeq(s, 1, Len(s) - 1), id)
-                       + (IF s[Len(s)][2] # id THEN 0 ELSE IF s[Len(s)][1] = "sub" THEN 1 ELSE -1)
+                       + (IF s[Len(s)][2] # id \/ s[Len(s)][3] # "sub" THEN 0 ELSE IF s[Len(s)][1] = "sub" THEN 1 ELSE -1)
 LoggerAlternates == \A id \in Ids : \A n \in 0..Len(logq) : Balance(SubSeq(logq, 1, n), id) \in {0, 1}
 LoggerPaired == closed /\ Quiescent => \A id \in Ids : Balance(logq, id) = 0
 \* C17: the logger's view is the map's view
 LoggerMatchesMap == \A id \in Ids : Balance(logq, id) = (IF subs[id] # 0 /\ ikind[subs[id]] = "sub" THEN 1 ELSE 0)
 \* C17: limit and duplicate-id rule
 LimitHolds == NumSubs <= MaxSubs
+MsgBound == msgs <= 5
 =============================================================================
